@@ -51,6 +51,110 @@ theorem setVal_keeps (k : String) (v : Val) (k' : String) : ∀ (m : List (Strin
       · obtain ⟨w, hw⟩ := setVal_keeps k v k' r ⟨v', h⟩
         exact ⟨w, List.mem_cons_of_mem _ hw⟩
 
+/-- a pair already present with the value being written stays -/
+theorem setVal_keeps_pair (k k' : String) (v : Val) : ∀ (m : List (String × Val)), (k', v) ∈ m → (k', v) ∈ setVal k v m
+  | [], h => by simp at h
+  | (k0, v0) :: r, h => by
+    unfold setVal
+    by_cases hk : k0 = k
+    · simp only [hk, if_true]
+      rcases List.mem_cons.mp h with h | h
+      · have : k' = k := by rw [← hk]; exact (Prod.mk.inj h).1
+        exact this ▸ List.mem_cons_self
+      · exact List.mem_cons_of_mem _ h
+    · simp only [hk, if_false]
+      rcases List.mem_cons.mp h with h | h
+      · exact h ▸ List.mem_cons_self
+      · exact List.mem_cons_of_mem _ (setVal_keeps_pair k k' v r h)
+
+theorem mem_writeAll {v : Val} : ∀ {ks : List String} {m : List (String × Val)} {kv : String × Val},
+    kv ∈ writeAll v ks m → (kv.1 ∈ ks ∧ kv.2 = v) ∨ kv ∈ m
+  | [], _, _, h => Or.inr h
+  | k :: r, m, kv, h => by
+    unfold writeAll at h
+    rcases mem_writeAll h with ⟨h1, h2⟩ | h
+    · exact Or.inl ⟨List.mem_cons_of_mem _ h1, h2⟩
+    · rcases mem_setVal h with h | h
+      · exact Or.inl ⟨by rw [h]; exact List.mem_cons_self, by rw [h]⟩
+      · exact Or.inr h
+
+theorem writeAll_keeps_pair (v : Val) (k' : String) : ∀ (ks : List String) (m : List (String × Val)),
+    (k', v) ∈ m → (k', v) ∈ writeAll v ks m
+  | [], _, h => h
+  | k :: r, m, h => by
+    unfold writeAll
+    exact writeAll_keeps_pair v k' r _ (setVal_keeps_pair k k' v m h)
+
+/-- every position of the list holds the value afterwards -/
+theorem writeAll_self (v : Val) : ∀ (ks : List String) (m : List (String × Val)), ∀ k ∈ ks, (k, v) ∈ writeAll v ks m
+  | [], _, _, h => by simp at h
+  | k0 :: r, m, k, h => by
+    unfold writeAll
+    rcases List.mem_cons.mp h with h | h
+    · subst h
+      exact writeAll_keeps_pair v k r _ (setVal_self k v m)
+    · exact writeAll_self v r _ k h
+
+theorem writeAll_keeps (v : Val) (k' : String) : ∀ (ks : List String) (m : List (String × Val)),
+    (∃ v', (k', v') ∈ m) → ∃ v', (k', v') ∈ writeAll v ks m
+  | [], _, h => h
+  | k :: r, m, h => by
+    unfold writeAll
+    exact writeAll_keeps v k' r _ (setVal_keeps k v k' m h)
+
+/-! ### `set_target_value`: positions written below a list of specs -/
+
+theorem mem_listSlots_of (tdest ck : String) : ∀ (items : List (Option (List String))) (j0 j : Nat) (it : Option (List String)),
+    items[j]? = some it → itemHas ck it = true → itemKey tdest (j0 + j) ck ∈ listSlots tdest ck j0 items
+  | [], _, _, _, h, _ => by simp at h
+  | x :: r, j0, 0, it, h, hh => by
+    simp only [List.getElem?_cons_zero, Option.some.injEq] at h
+    subst h
+    simp [listSlots, hh]
+  | x :: r, j0, j + 1, it, h, hh => by
+    simp only [List.getElem?_cons_succ] at h
+    have := mem_listSlots_of tdest ck r (j0 + 1) j it h hh
+    unfold listSlots
+    apply List.mem_append_right
+    have e : j0 + 1 + j = j0 + (j + 1) := by omega
+    rw [e] at this
+    exact this
+
+theorem listSlots_mem (tdest ck : String) : ∀ (items : List (Option (List String))) (j0 : Nat) (k : String),
+    k ∈ listSlots tdest ck j0 items → ∃ j it, items[j]? = some it ∧ itemHas ck it = true ∧ k = itemKey tdest (j0 + j) ck
+  | [], _, _, h => by simp [listSlots] at h
+  | x :: r, j0, k, h => by
+    unfold listSlots at h
+    rcases List.mem_append.mp h with h | h
+    · by_cases hx : itemHas ck x = true
+      · simp only [hx, if_true, List.mem_singleton] at h
+        exact ⟨0, x, by simp, hx, by simpa using h⟩
+      · simp [hx] at h
+    · obtain ⟨j, it, h1, h2, h3⟩ := listSlots_mem tdest ck r (j0 + 1) k h
+      refine ⟨j + 1, it, by simpa using h1, h2, ?_⟩
+      have e : j0 + 1 + j = j0 + (j + 1) := by omega
+      rw [← e]; exact h3
+
+theorem keyMatchesL_append (d t x : List Char) (h : keyMatchesL d t = true) : keyMatchesL d (t ++ '.' :: x) = true := by
+  unfold keyMatchesL at h ⊢
+  simp only [Bool.or_eq_true, beq_iff_eq] at h ⊢
+  right
+  rcases h with h | h
+  · subst h
+    rw [List.isPrefixOf_iff_prefix]
+    exact ⟨x, by simp⟩
+  · rw [List.isPrefixOf_iff_prefix] at h ⊢
+    obtain ⟨y, hy⟩ := h
+    exact ⟨y ++ '.' :: x, by rw [← hy]; simp⟩
+
+theorem feeds_itemKey (d tdest ck : String) (j : Nat) (h : feeds d tdest = true) : feeds d (itemKey tdest j ck) = true := by
+  unfold feeds keyMatches at h ⊢
+  have : (itemKey tdest j ck).toList = tdest.toList ++ '.' :: ('#' :: (toString j).toList ++ '.' :: ck.toList) := by
+    simp [itemKey, String.toList_append]
+  rw [this]
+  exact keyMatchesL_append _ _ _ h
+
+
 variable (F : String → List Val → Val) (links : List FLink)
 
 /-! ### the log and the built list change only in `construct` -/
@@ -121,9 +225,9 @@ theorem linkValue_good (cfg : Cfg) (l : FLink) (h : ∀ s ∈ l.sources, s.1 ∈
 
 /-- invariant of the component loop -/
 structure Good (cfg : Cfg) : Prop where
-  vals : ∀ kv ∈ cfg.vals, ∃ l ∈ links, l.target = kv.1 ∧ kv.2 = goodValue F l
-  log : ∀ e ∈ cfg.log, ∀ kv ∈ e.2, ∃ l ∈ links, l.target = kv.1 ∧ kv.2 = goodValue F l
-  app : ∀ i ∈ cfg.applied, ∀ l, links[i]? = some l → ∃ v, (l.target, v) ∈ cfg.vals
+  vals : ∀ kv ∈ cfg.vals, ∃ l ∈ links, kv.1 ∈ targetSlots l ∧ kv.2 = goodValue F l
+  log : ∀ e ∈ cfg.log, ∀ kv ∈ e.2, ∃ l ∈ links, kv.1 ∈ targetSlots l ∧ kv.2 = goodValue F l
+  app : ∀ i ∈ cfg.applied, ∀ l, links[i]? = some l → ∀ k ∈ targetSlots l, ∃ v, (k, v) ∈ cfg.vals
 
 theorem Good.parsed : Good F links Cfg.parsed :=
   ⟨by intro kv h; simp [Cfg.parsed] at h, by intro e h; simp [Cfg.parsed] at h, by intro i h; simp [Cfg.parsed] at h⟩
@@ -143,17 +247,17 @@ theorem applyOne_good (d : String) (cfg : Cfg) (i : Nat) (hg : Good F links cfg)
       simp only [hw, if_true]
       refine ⟨⟨?_, hg.log, ?_⟩, fun x hx => List.mem_append_left _ hx, fun _ _ _ => List.mem_append_right _ (by simp)⟩
       · intro kv hkv
-        rcases mem_setVal hkv with h | h
-        · exact ⟨l, hmem, by rw [h], by rw [h, hval]⟩
+        rcases mem_writeAll hkv with ⟨h1, h2⟩ | h
+        · exact ⟨l, hmem, h1, by rw [h2, hval]⟩
         · exact hg.vals kv h
-      · intro j hj l' hl'
+      · intro j hj l' hl' k hk
         rcases List.mem_append.mp hj with hj | hj
-        · exact setVal_keeps _ _ _ _ (hg.app j hj l' hl')
+        · exact writeAll_keeps _ _ _ _ (hg.app j hj l' hl' k hk)
         · simp at hj
           subst hj
           rw [hl] at hl'
           cases hl'
-          exact ⟨_, setVal_self _ _ _⟩
+          exact ⟨_, writeAll_self _ _ _ k hk⟩
     · have hw' : wanted (some d) l = false := by simpa using hw
       simp only [hw', Bool.false_eq_true, if_false]
       refine ⟨hg, fun x hx => hx, ?_⟩
@@ -181,7 +285,8 @@ theorem foldl_applyOne_good (d : String) : ∀ (pend : List Nat) (cfg : Cfg), Go
     link feeding `d` has its key set afterwards -/
 theorem applyLinks_good (d : String) (cfg : Cfg) (hg : Good F links cfg) (hr : ReadyAt links cfg.built d) :
     Good F links (applyLinks F links [] (some d) cfg) ∧
-    ∀ l ∈ links, feeds d l.target = true → ∃ v, (l.target, v) ∈ (applyLinks F links [] (some d) cfg).vals := by
+    ∀ l ∈ links, feeds d l.target = true → ∀ k ∈ targetSlots l,
+      ∃ v, (k, v) ∈ (applyLinks F links [] (some d) cfg).vals := by
   unfold applyLinks
   by_cases he : links.isEmpty
   · have : links = [] := by simpa using he
@@ -215,7 +320,7 @@ theorem icLoop_good : ∀ (comps : List (String × Bool)) (cfg : Cfg), Good F li
     Good F links (icLoop F links comps cfg) ∧
     (∀ e ∈ cfg.log, e ∈ (icLoop F links comps cfg).log) ∧
     (∀ d, (d, true) ∈ comps → ∃ e ∈ (icLoop F links comps cfg).log, e.1 = d ∧
-        ∀ l ∈ links, feeds d l.target = true → ∃ v, (l.target, v) ∈ e.2)
+        ∀ l ∈ links, feeds d l.target = true → ∀ k ∈ targetSlots l, feeds d k = true → ∃ v, (k, v) ∈ e.2)
   | [], cfg, hg, _ => ⟨hg, fun _ h => h, by intro d h; simp at h⟩
   | (d, isC) :: r, cfg, hg, hs => by
     obtain ⟨hr, hrest⟩ := hs
@@ -246,9 +351,9 @@ theorem icLoop_good : ∀ (comps : List (String × Bool)) (cfg : Cfg), Good F li
         rcases List.mem_cons.mp hd' with h | h
         · cases h
           refine ⟨(d, (applyLinks F links [] (some d) cfg).vals.filter (fun kv => feeds d kv.1)), k2 _ (by simp [construct]), rfl, ?_⟩
-          intro l hl' hf
-          obtain ⟨v, hv⟩ := p1 l hl' hf
-          exact ⟨v, List.mem_filter.mpr ⟨hv, hf⟩⟩
+          intro l hl' hf k hk hfk
+          obtain ⟨v, hv⟩ := p1 l hl' hf k hk
+          exact ⟨v, List.mem_filter.mpr ⟨hv, hfk⟩⟩
         · exact e2 d' h
 
 /-! ### sessions -/
